@@ -882,10 +882,12 @@ impl UnifiedCommandExecutor {
             }
             
             SetCommand::SRandMember { key, count } => {
+                // Without a count the reply is one member or nil; with a count (even 1) an array
+                let with_count = count.is_some();
                 let count = count.unwrap_or(1);
                 let members = self.storage.srandmember(db, &key, count)?;
-                if count == 1 && !members.is_empty() {
-                    Ok(RespFrame::from_bytes(members[0].clone()))
+                if !with_count {
+                    Ok(members.into_iter().next().map(RespFrame::from_bytes).unwrap_or(RespFrame::BulkString(None)))
                 } else {
                     let frames: Vec<RespFrame> = members.into_iter()
                         .map(|m| RespFrame::from_bytes(m))
@@ -895,10 +897,12 @@ impl UnifiedCommandExecutor {
             }
             
             SetCommand::SPop { key, count } => {
+                // Without a count the reply is one member or nil; with a count (even 1) an array
+                let with_count = count.is_some();
                 let count = count.unwrap_or(1);
                 let members = self.storage.spop(db, key, count)?;
-                if count == 1 && !members.is_empty() {
-                    Ok(RespFrame::from_bytes(members[0].clone()))
+                if !with_count {
+                    Ok(members.into_iter().next().map(RespFrame::from_bytes).unwrap_or(RespFrame::BulkString(None)))
                 } else {
                     let frames: Vec<RespFrame> = members.into_iter()
                         .map(|m| RespFrame::from_bytes(m))
